@@ -835,6 +835,46 @@ func c11r4(c *core.Ctx) {
 				}
 				return true
 			})
+			// (a constructor that returns data and pointer together: buf := newBuffer(tp, t.cap); col.data = buf.data -
+			// the array length inside the constructor is the parameter that receives the capacity)
+			if sel, isSel := ast.Unparen(rhs).(*ast.SelectorExpr); isSel && !lenIsCap {
+				if id, isID := ast.Unparen(sel.X).(*ast.Ident); isID {
+					if v, isVar := m.Info.ObjectOf(id).(*types.Var); isVar && !v.IsField() {
+						if defs := localDefsOf(m, m.EnclosingFunc(as.Pos()), v); len(defs) == 1 {
+							if call, isCall := ast.Unparen(defs[0]).(*ast.CallExpr); isCall {
+								if k, cal, _ := m.Callee(call); k == core.CallStatic && cal != nil && cal.Body != nil {
+									nArr, okArr := 0, true
+									core.InspectNoLits(cal.Body, func(x ast.Node) bool {
+										ac, isC := x.(*ast.CallExpr)
+										if !isC || types.ExprString(ac.Fun) != "reflect.ArrayOf" || len(ac.Args) != 2 {
+											return true
+										}
+										nArr++
+										pid := identOf(m.StripConv(ac.Args[0]))
+										if pid == nil {
+											okArr = false
+											return true
+										}
+										pv, _ := m.Info.ObjectOf(pid).(*types.Var)
+										pi, isP := paramIndexOf(cal, pv)
+										if pv == nil || !isP || pi < 0 || pi >= len(call.Args) {
+											okArr = false
+											return true
+										}
+										if a := call.Args[pi]; fieldKeyOf(m, a) != "table.cap" && !capStrings[m.ExprString(a)] {
+											okArr = false
+										}
+										return true
+									})
+									if nArr > 0 && okArr {
+										lenIsCap = true
+									}
+								}
+							}
+						}
+					}
+				}
+			}
 			if freshTypedArray(m, adj, rhs, 0) && lenIsCap {
 				c.OK("C11/R4", subject, c.At(as.Pos()), "fresh zeroed typed array of the new capacity")
 			} else {
